@@ -119,11 +119,15 @@ def gen_c14(repo):
     s += "def VCPU_FIELDS : List (String × Nat × Nat × Bool × Nat) := %s\n" % lean_list(
         st["vcpu"]["fields"],
         lambda f: '("%s", %d, %d, %s, %d)' % (f[0], f[1], f[2], "true" if f[3] else "false", f[4]))
+    s += "/-- the `sv` struct: (name, offset, element size, is string, count) in file order -/\n"
+    s += "def SV_FIELDS : List (String × Nat × Nat × Bool × Nat) := %s\n" % lean_list(
+        st["sv"]["fields"],
+        lambda f: '("%s", %d, %d, %s, %d)' % (f[0], f[1], f[2], "true" if f[3] else "false", f[4]))
     s += "def ROUTER_DIAG_ADDR : Nat := %d\n" % diag_addr
     s += "def ROUTER_DIAG_LEN : Nat := %d\n" % diag_len
     s += "def ROUTER_DIAG_NAMES : List String := %s\n" % lean_list(diag_names, lambda x: '"%s"' % x)
     s += "end Rig.Gen.C14\n"
-    return s, 12
+    return s, 13
 
 
 GENERATORS = {"C14": gen_c14}
